@@ -38,7 +38,7 @@ CHECKS["C14"] = (
     "Operation sequences on real KeyedSets (6 universes x both enforce_item_equivalence settings) are run in lock-step with a "
     "dict model; after every operation len/items/keys/membership/lookup by every item and key are compared; results of |,&,-,^ "
     "and their in-place forms against KeyedSet and built-in set operands are checked on keys and must still answer by key with "
-    "the same key function and flag. Exhaustive over all start sets x all operations to length 2 (strided in quick), random beyond.",
+    "the same key function and flag. Exhaustive over all start sets x all operations to length 2 (strided in quick), random beyond. Directed: comparisons (<=, <, >=, >, ==, !=) of KeyedSets of unhashable / hashable items with built-in sets of bare keys must answer with a bool (totality only).",
     "Trusted: the model in checks/c14.py; cases where by-key and by-item readings of a built-in set operand differ, and flag+unequal-payload operands, are UNSPECIFIED and counted.",
     "DESIGN.md §3 C14",
 )
